@@ -136,26 +136,107 @@ func IsRecv(in ssa.Instruction) bool {
 	return ok && u.Op == token.ARROW
 }
 
-// PrecedeI: every instruction selected by b is dominated by one selected by a.
+// PrecedeI: every instruction selected by b is preceded, on every path, by one
+// selected by a. Both events are lifted through helper functions: a call of a
+// helper that always performs a counts as a; a b that sits inside a helper is
+// checked there, and if a does not precede it inside the helper, a must
+// precede every call of that helper (up the static call chain to fn).
 func PrecedeI(c *Ctx, fn *ssa.Function, a Sel, aName string, b Sel, bName string) int {
-	as := InstrsIn(fn, a)
-	bs := InstrsIn(fn, b)
-	if len(bs) == 0 {
-		c.Undecided("order-noB:"+FuncName(fn)+":"+bName, fn.Pos(), "%s has no %s any more", FuncName(fn), bName)
-		return 0
+	p := c.P
+	mustA := p.mustSel(a, liftDepth)
+	// functions reachable from fn through static calls (to the lifting depth) that directly contain b
+	type site struct {
+		in ssa.Instruction
+		fn *ssa.Function
 	}
-	for _, bi := range bs {
-		ok := false
-		for _, ai := range as {
-			if Dominates(ai, bi) {
-				ok = true
-				break
+	var bs []site
+	reach := map[*ssa.Function]bool{}
+	var collect func(f *ssa.Function, d int)
+	collect = func(f *ssa.Function, d int) {
+		if f == nil || f.Blocks == nil || reach[f] || !p.InRepo(f) {
+			return
+		}
+		reach[f] = true
+		for _, in := range InstrsIn(f, b) {
+			bs = append(bs, site{in, f})
+		}
+		if d == 0 {
+			return
+		}
+		for _, call := range CallsIn(f, nil) {
+			if _, isGo := call.(*ssa.Go); isGo {
+				continue
+			}
+			if a(call.(ssa.Instruction)) {
+				continue // the call itself is the event a: what happens inside it is part of a
+			}
+			collect(StaticCallee(call), d-1)
+		}
+	}
+	// the event is looked for in fn itself first; only when it is not there any more
+	// (it was moved into a helper) are the helpers searched
+	for _, in := range InstrsIn(fn, b) {
+		bs = append(bs, site{in, fn})
+	}
+	reach[fn] = true
+	if len(bs) == 0 {
+		reach = map[*ssa.Function]bool{}
+		collect(fn, liftDepth)
+	} else {
+		// callers-of-helper lookups still need the reach set
+		var mark func(f *ssa.Function, d int)
+		mark = func(f *ssa.Function, d int) {
+			if f == nil || f.Blocks == nil || !p.InRepo(f) || d < 0 {
+				return
+			}
+			if reach[f] && f != fn {
+				return
+			}
+			reach[f] = true
+			for _, call := range CallsIn(f, nil) {
+				mark(StaticCallee(call), d-1)
 			}
 		}
-		if ok {
-			c.Site(InstrPos(bi), "%s: %s is preceded by %s on every path", FuncName(fn), bName, aName)
+		mark(fn, liftDepth)
+	}
+	if len(bs) == 0 {
+		c.Undecided("order-noB:"+FuncName(fn)+":"+bName, fn.Pos(), "%s (and the helpers it calls) has no %s any more", FuncName(fn), bName)
+		return 0
+	}
+	var before func(f *ssa.Function, at ssa.Instruction, depth int) bool
+	before = func(f *ssa.Function, at ssa.Instruction, depth int) bool {
+		for _, ai := range InstrsIn(f, mustA) {
+			if ai != at && Dominates(ai, at) {
+				return true
+			}
+		}
+		if f == fn || depth <= 0 {
+			return false
+		}
+		// a must precede every call of f inside the reach set
+		n := 0
+		for g := range reach {
+			for _, call := range CallsIn(g, nil) {
+				if StaticCallee(call) != f {
+					continue
+				}
+				n++
+				if !before(g, call.(ssa.Instruction), depth-1) {
+					return false
+				}
+			}
+		}
+		return n > 0
+	}
+	for _, s := range bs {
+		if before(s.fn, s.in, liftDepth) {
+			where := ""
+			if s.fn != fn {
+				where = " (in helper " + FuncName(s.fn) + ")"
+			}
+			c.Site(InstrPos(s.in), "%s: %s is preceded by %s on every path%s", FuncName(fn), bName, aName, where)
 		} else {
-			c.Violation("order:"+FuncName(fn)+":"+aName+"<"+bName, InstrPos(bi), "in %s, %s can run without %s having run before it", FuncName(fn), bName, aName)
+			c.Violation("order:"+FuncName(fn)+":"+aName+"<"+bName, InstrPos(s.in), "in %s, %s can run without %s having run before it", FuncName(fn), bName, aName)
 		}
 	}
 	return len(bs)
@@ -230,6 +311,18 @@ func derives(v ssa.Value, src func(ssa.Value) bool, seen map[ssa.Value]bool, d i
 		}
 		if x.Call.IsInvoke() {
 			return derives(x.Call.Value, src, seen, d+1)
+		}
+		// a repo helper: what it returns
+		if callee := StaticCallee(x); callee != nil && callee.Blocks != nil && Current != nil && Current.InRepo(callee) && d < 12 {
+			for _, b := range callee.Blocks {
+				if ret, ok := b.Instrs[len(b.Instrs)-1].(*ssa.Return); ok && b != callee.Recover {
+					for i := range ret.Results {
+						if derives(RetOperand(ret, i), src, seen, d+8) {
+							return true
+						}
+					}
+				}
+			}
 		}
 	case *ssa.Alloc:
 		// contents stored into the allocation (directly or through element/field addresses)
